@@ -1,5 +1,5 @@
 (* C05 — property theorems only. *)
-Require Import V.Lib V.C05_Model V.C05_Proofs V.C05_RetryProofs V.C05_RRProofs V.C05_ConcProofs.
+Require Import V.Lib V.C05_Model V.C05_Proofs V.C05_RetryProofs V.C05_RRProofs V.C05_ConcProofs V.C05_SeqProofs.
 Open Scope N_scope.
 
 (* soundness: no policy ever returns an unavailable backend *)
@@ -371,3 +371,54 @@ Proof. exact retry_body_bytes_witness. Qed.
 Theorem C05_own_bytes_of_pattern : forall salt len, own_bytes (desc_of_pat salt len) salt len = true.
 Proof. exact own_bytes_desc. Qed.
 Print Assumptions C05_own_bytes_of_pattern.
+
+(* ================= a backend that dies MID-BODY ================= *)
+
+(* The retry loop on a buffered body (bytes.Reader: Len() = UNREAD bytes; rewind before every attempt;
+   outreq.ContentLength never touched): for EVERY body, every announced length the request came with,
+   every reader offset and EVERY sequence of attempts whose backends read k bytes and die (None: read
+   to EOF), each attempt - the first and every retry - is announced the SAME length and reads the body
+   from its first byte: exactly (cl, first k bytes) / (cl, whole body). *)
+Theorem C05_retry_announces_full_length : forall ks data off cl,
+  mid_run false cl (mk_rdr data off) ks = map (fun k => (cl, mid_expect data k)) ks.
+Proof. exact mid_run_spec. Qed.
+Print Assumptions C05_retry_announces_full_length.
+
+Theorem C05_retry_every_attempt_announced_and_fed : forall ks data off cl o,
+  In o (mid_run false cl (mk_rdr data off) ks) ->
+  fst o = cl /\ exists k, In k ks /\ snd o = mid_expect data k.
+Proof. exact mid_run_announces. Qed.
+Print Assumptions C05_retry_every_attempt_announced_and_fed.
+
+(* what the theorem excludes: announcing bb.Len() taken BEFORE the rewind tells the retry's backend
+   the unread remainder (3 of 4 bytes) after a backend that read 1 byte and died *)
+Example C05_retry_announces_full_length_nonvacuous :
+  mid_run false 4 (mk_rdr [1; 2; 3; 4] 0) [Some 1%nat; None] = [(4%Z, [1]); (4%Z, [1; 2; 3; 4])] /\
+  mid_run true 4 (mk_rdr [1; 2; 3; 4] 0) [Some 1%nat; None] = [(4%Z, [1]); (3%Z, [1; 2; 3; 4])].
+Proof. exact mid_len_before_rewind_witness. Qed.
+
+(* ================= Fails over SEVERAL requests ================= *)
+
+(* Fails as the code keeps it (an integer, +1 at every failed forward, one timer per failure taking it
+   back fail_timeout later, untouched by a success): for EVERY fail_timeout and EVERY history of
+   failures, successes and readings told in the order of time, the value read at any later time is
+   the number of failures that have not expired yet - what the availability predicate (Fails >=
+   max_fails) and C05_failed_hosts_skipped_until_expiry rely on from one request to the next. *)
+Theorem C05_fails_is_number_of_unexpired_failures : forall ft evs now,
+  fmono 0 evs = true -> flast 0 evs <= now ->
+  f_cnt (fire now (frun false ft evs)) = Z.of_N (live now (fexp ft evs)).
+Proof. exact fails_is_unexpired. Qed.
+Print Assumptions C05_fails_is_number_of_unexpired_failures.
+
+Theorem C05_fails_never_negative : forall ft evs,
+  fmono 0 evs = true -> (0 <= f_cnt (frun false ft evs))%Z.
+Proof. exact fails_never_negative. Qed.
+Print Assumptions C05_fails_never_negative.
+
+(* non-vacuous, and what the theorems exclude: a success that stores 0 while the failure's timer is
+   pending leaves Fails at -1 once the timer fired, with no failure unexpired *)
+Example C05_fails_nonvacuous :
+  let evs := [FFail 0; FSucc 1; FRead 10] in
+  fmono 0 evs = true /\ f_cnt (frun false 3 evs) = 0%Z /\ f_cnt (frun true 3 evs) = (-1)%Z /\
+  live 10 (fexp 3 evs) = 0.
+Proof. exact fails_reset_witness. Qed.
